@@ -425,7 +425,7 @@ def minmax(a, b, pick_max):
             neutral = (float(x) < 0) if pick_max else (float(x) > 0)
             if neutral:
                 return y
-            return SymReal.lift(x)
+            return x          # the concrete infinity itself (kept as a float: bounds stay concrete)
     a = SymReal.lift(a); b = SymReal.lift(b)
     c = (a.val >= b.val) if pick_max else (a.val <= b.val)
     d = None
